@@ -1457,11 +1457,15 @@ class FileStorage(
         oid = index.minKey(next)
 
         oid_as_long, = unpack(">Q", oid)
-        next_oid = pack(">Q", oid_as_long + 1)
-        try:
-            next_oid = index.minKey(next_oid)
-        except ValueError:  # "empty tree" error
+        if oid == b'\xff' * 8:
+            # No id follows the largest possible one.
             next_oid = None
+        else:
+            next_oid = pack(">Q", oid_as_long + 1)
+            try:
+                next_oid = index.minKey(next_oid)
+            except ValueError:  # "empty tree" error
+                next_oid = None
 
         data, tid = load_current(self, oid)
 
